@@ -134,6 +134,9 @@ def space(K, p, thorough):
         for fact, eq in [("DOFACT", "NOEQUIL"), ("EQUILIBRATE", "BOTH"), ("FACTORED", "NOEQUIL"), ("FACTORED", "ROW"),
                          ("FACTORED", "COL"), ("FACTORED", "BOTH")]:
             bases.append(("%s-%s-%s" % (fact, eq, st), gx(fact, eq, st)))
+    for fact, eq in [("DOFACT", "NOEQUIL"), ("EQUILIBRATE", "BOTH"), ("FACTORED", "ROW")]:
+        bq = gx(fact, eq, "NC"); bq["lwork"] = -1          # workspace query: the argument tests are the same
+        bases.append(("%s-%s-query" % (fact, eq), bq))
     bases.append(("DOFACT-TRANS", gx("DOFACT", "NOEQUIL", "NC", "TRANS")))
     bases.append(("FACTORED-BOTH-CONJ", gx("FACTORED", "BOTH", "NC", "CONJ")))
     bases.append(("FACTORED-BOTH-bigR", gx("FACTORED", "BOTH", "NC", R="1,%s,1" % big, C="1/2^20,1,1")))
@@ -392,8 +395,8 @@ def c_agrees_with_model(c, m, r):
             d.append("info=%s although the model passes all tests" % r["info"])
         elif spec == 0 and st != "ok":
             d.append("status=%s on a documented-legal call" % st)
-        elif spec == 0 and not c["viol"] and int(r["info"]) != 0:
-            d.append("info=%s on the legal base call" % r["info"])
+        elif spec == 0 and not c["viol"] and int(r["info"]) != 0 and not (c.get("base", "").endswith("-query") and int(r["info"]) > 0):
+            d.append("info=%s on the legal base call" % r["info"])      # (a legal workspace query answers info = n + estimate > 0)
     return d
 
 
